@@ -62,6 +62,9 @@ mut("C04", "304_before_412", "C04.R6", [(S, "    if precondition_failed {\n     
                                         "    if not_modified {\n        res = res.status(StatusCode::NOT_MODIFIED);\n        return ServeInner::Simple(res.body(Body::empty()).unwrap());\n    }\n\n    if precondition_failed {\n        res = res.status(StatusCode::PRECONDITION_FAILED);\n        return ServeInner::Simple(res.body(Body::from(\"Precondition failed\")).unwrap());\n    }\n")])
 mut("C04", "any_match_flag_reset", "C04.R3", [(E, "if !any_match && strong_eq(item, some_etag.as_bytes()) {\n                any_match = true;\n            }", "any_match = strong_eq(item, some_etag.as_bytes());")])
 mut("C04", "weak_eq_strips_one_side", "C04.R2", [(E, '    let b = b.strip_prefix(b"W/").unwrap_or(b);\n    a == b', "    a == b")], also="C14")
+mut("C04", "sweep_corrupt_initially_true", "C04.R5", [(E, "            corrupt: false,\n        }\n    }\n}", "            corrupt: true,\n        }\n    }\n}")])
+mut("C04", "sweep_flag_never_flips", "C04.R3", [(E, "if !any_match && strong_eq(item, some_etag.as_bytes()) {", "if any_match && strong_eq(item, some_etag.as_bytes()) {")])
+mut("C03", "sweep_open_range_never_taken", "C03.R2", [(R, "let end = if r.len() > hyphen + 1 {", "let end = if r.len() >= hyphen + 1 {")])
 # ---------------- C05
 mut("C05", "gate_uses_weak", "C05.R2", [(S, "if etag::strong_eq(if_range, some_etag.as_bytes()) {", "if etag::weak_eq(if_range, some_etag.as_bytes()) {")])
 mut("C05", "date_if_range_keeps_range", "C05.R1", [(S, "                // The resource could have changed twice in the supplied second, so never match.\n                range_hdr = None;\n                true", "                // The resource could have changed twice in the supplied second, so never match.\n                true")])
